@@ -347,6 +347,23 @@ func hazards() []hazard {
 		"import (\n\t\"context\"\n\n\t\"go.uber.org/cff\"\n)\n\nfunc Run(ctx context.Context, n int) (string, error) {\n\tf := func(k int) (string, error) {\n\t\tg := func() (string, error) {\n\t\t\tvar out string\n\t\t\terr := cff.Flow(ctx,\n\t\t\t\tcff.Params(k+n),\n\t\t\t\tcff.Results(&out),\n\t\t\t\tcff.Task(func(i int) (string, error) { return string(rune('a' + i%26)), nil }),\n\t\t\t)\n\t\t\treturn out, err\n\t\t}\n\t\treturn g()\n\t}\n\treturn f(1)\n}\n", nil)
 	add("package-level-var-directive", "accept",
 		"import (\n\t\"context\"\n\n\t\"go.uber.org/cff\"\n)\n\nvar out string\n\nvar initErr = cff.Flow(context.Background(),\n\tcff.Params(7),\n\tcff.Results(&out),\n\tcff.Task(func(i int) (string, error) { return string(rune('a' + i%26)), nil }),\n)\n\nfunc Run(ctx context.Context, n int) (string, error) { return out, initErr }\n", nil)
+	add("package-level-func-literal-directive", "accept",
+		"import (\n\t\"context\"\n\n\t\"go.uber.org/cff\"\n)\n\nvar Render = func(ctx context.Context, n int) (string, error) {\n\tvar out string\n\terr := cff.Flow(ctx,\n\t\tcff.Params(n),\n\t\tcff.Results(&out),\n\t\tcff.Task(func(i int) (string, error) { return string(rune('a' + i%26)), nil }),\n\t)\n\treturn out, err\n}\n\nfunc Run(ctx context.Context, n int) (string, error) { return Render(ctx, n) }\n", nil)
+	// files without the cff constraint: a positioned diagnostic, whatever else is
+	// wrong with their directives
+	untagged := func(feature, body string) {
+		add(feature, "diagnostic", body, nil)
+		h := &hs[len(hs)-1]
+		h.Files["p.go"] = strings.TrimPrefix(h.Files["p.go"], "//go:build cff\n\n")
+	}
+	untagged("untagged-file:well-formed-flow",
+		"import (\n\t\"context\"\n\n\t\"go.uber.org/cff\"\n)\n\nfunc Run(ctx context.Context, n int) (string, error) {\n"+flow("cff")+"}\n")
+	untagged("untagged-file:flow-with-unprovided-input",
+		"import (\n\t\"context\"\n\n\t\"go.uber.org/cff\"\n)\n\nfunc Run(ctx context.Context, n int) (string, error) {\n\tvar out string\n\terr := cff.Flow(ctx,\n\t\tcff.Results(&out),\n\t\tcff.Task(func(i int) (string, error) { return string(rune('a' + i%26)), nil }),\n\t)\n\t_ = n\n\treturn out, err\n}\n")
+	untagged("untagged-file:parallel-with-bad-task",
+		"import (\n\t\"context\"\n\n\t\"go.uber.org/cff\"\n)\n\nfunc Run(ctx context.Context, n int) error {\n\treturn cff.Parallel(ctx,\n\t\tcff.Task(func(i int) error { _ = n; return nil }),\n\t)\n}\n")
+	untagged("untagged-file:ill-formed-then-well-formed",
+		"import (\n\t\"context\"\n\n\t\"go.uber.org/cff\"\n)\n\nfunc Run0(ctx context.Context, n int) (string, error) {\n\tvar out string\n\terr := cff.Flow(ctx,\n\t\tcff.Results(&out),\n\t\tcff.Task(func(i int) (string, error) { return string(rune('a' + i%26)), nil }),\n\t)\n\t_ = n\n\treturn out, err\n}\n\nfunc Run(ctx context.Context, n int) (string, error) {\n"+flow("cff")+"}\n")
 	add("generic-method-receiver", "accept",
 		"import (\n\t\"context\"\n\n\t\"go.uber.org/cff\"\n)\n\ntype Box[T any] struct{ v T }\n\nfunc (b *Box[T]) Run(ctx context.Context, n int) (T, error) {\n\tvar out T\n\terr := cff.Flow(ctx,\n\t\tcff.Params(n),\n\t\tcff.Results(&out),\n\t\tcff.Task(func(i int) (T, error) { return b.v, nil }),\n\t)\n\treturn out, err\n}\n\nfunc Run(ctx context.Context, n int) (string, error) { return (&Box[string]{\"s\"}).Run(ctx, n) }\n", nil)
 	add("slice-noindex-with-end", "accept",
